@@ -4,47 +4,61 @@
    pairg : two unitary DIAGRAMS that are not plain to_graph outputs (simplified by one of the strategies, built with the
            simplify-while-building / post-selected-CCZ options, colour-changed, renamed, multiplied by the phase i);
            ground truth S1 = Den(g1), S2 = Den(g2): the specification's reference denotation of the logged diagrams
+   pairp : a circuit c1 and the circuit c1 ; x q ; rz(n/d) q ; x q ; rz(n/d) q with n/d NOT a multiple of 1/4. Since
+           X Rz(t) X Rz(t) = e^{i t} I for every t (MC_Equal checks the identity for the eight multiples of pi/4), the pair is
+           by construction equal up to the global phase e^{i pi n/d} and not equal exactly; its scalar is outside Z[omega], so
+           the ground truth is this construction, not CircSem. Both argument orders occur.
+           L2 DefGen: a definite answer must be "equal" when a global phase is allowed and "notequal" when it is not;
+           the tensor comparisons must answer false, the arity tests true
    eq    : equal_circuit_with_options / equal_circuit / equal_graph_with_options / equal_graph
            (answer equal/notequal/unknown; phase = was a global phase allowed, TRUE for the two default wrappers)
            L2 Def: a definite answer is never wrong
    eqt   : equal_circuit_tensor / equal_graph_tensor     L2 DefTensor: true exactly for identical tensors
    eqdim : equal_circuit_dim / equal_graph_dim           L2: true exactly for equal arities *)
 EXTENDS TraceLib, ToGraph, Equality, FiniteSets, FiniteSetsExt
-VARIABLES l, ar, s1, s2, viol, drift, stats
-vars == <<l, ar, s1, s2, viol, drift, stats>>
-Init == l = 1 /\ ar = TRUE /\ s1 = <<>> /\ s2 = <<>> /\ viol = <<>> /\ drift = <<>>
+VARIABLES l, ar, s1, s2, gen, viol, drift, stats
+vars == <<l, ar, s1, s2, gen, viol, drift, stats>>
+Init == l = 1 /\ ar = TRUE /\ s1 = <<>> /\ s2 = <<>> /\ gen = FALSE /\ viol = <<>> /\ drift = <<>>
         /\ stats = [pairs |-> 0, answers |-> 0, equal |-> 0, notequal |-> 0, unknown |-> 0, nontrivial |-> 0,
-                    graph_pairs |-> 0, graph_answers |-> 0, default_wrapper |-> 0, dim_calls |-> 0]
+                    graph_pairs |-> 0, generic_phase_pairs |-> 0, graph_answers |-> 0, default_wrapper |-> 0, dim_calls |-> 0]
 Arity == ar
+\* the pair differs exactly by a global phase that is not 1
+DefGen(ret, phase) == ret = "unknown" \/ (IF phase THEN ret = "equal" ELSE ret = "notequal")
 B(x) == IF x THEN 1 ELSE 0
 Step(e) ==
   CASE e.k = "pairc" ->
          LET a == CircFromAbs(e.c1)  b == CircFromAbs(e.c2) IN
-         /\ ar' = (a.n = b.n) /\ s1' = CircSem(a) /\ s2' = CircSem(b)
+         /\ ar' = (a.n = b.n) /\ s1' = CircSem(a) /\ s2' = CircSem(b) /\ gen' = FALSE
          /\ stats' = [stats EXCEPT !.pairs = @ + 1] /\ UNCHANGED <<viol, drift>>
+    [] e.k = "pairp" ->
+         /\ ar' = TRUE /\ s1' = <<>> /\ s2' = <<>> /\ gen' = TRUE
+         /\ viol' = IF (e.ph[1] * 4) % e.ph[2] # 0 THEN viol ELSE Append(viol, <<l, "HarnessGenericPhase">>)
+         /\ stats' = [stats EXCEPT !.pairs = @ + 1, !.generic_phase_pairs = @ + 1] /\ UNCHANGED <<drift>>
     [] e.k = "pairg" ->
          LET a == FromAbs(e.g1)  b == FromAbs(e.g2) IN
-         /\ ar' = SameArity(a, b) /\ s1' = Den(a) /\ s2' = Den(b)
+         /\ ar' = SameArity(a, b) /\ s1' = Den(a) /\ s2' = Den(b) /\ gen' = FALSE
          /\ stats' = [stats EXCEPT !.pairs = @ + 1, !.graph_pairs = @ + 1] /\ UNCHANGED <<viol, drift>>
     [] e.k = "eq" ->
          /\ viol' = IF e.ret = "panic" THEN Append(viol, <<l, "NoPanic", e.fn>>)
+                    ELSE IF gen THEN (IF DefGen(e.ret, e.phase) THEN viol ELSE Append(viol, <<l, "DefGen", e.fn, e.ret>>))
                     ELSE IF Def(e.ret, Arity, s1, s2, e.phase) THEN viol ELSE Append(viol, <<l, "Def", e.fn, e.ret>>)
          \* information only: the checker could not decide a pair that is in fact equal / different
-         /\ drift' = IF e.ret = "unknown" /\ Arity /\ s1 = s2 THEN Append(drift, <<l, "UnknownButEqual">>) ELSE drift
+         /\ drift' = IF ~gen /\ e.ret = "unknown" /\ Arity /\ s1 = s2 THEN Append(drift, <<l, "UnknownButEqual">>) ELSE drift
          /\ stats' = [stats EXCEPT !.answers = @ + 1, !.equal = @ + (IF e.ret = "equal" THEN 1 ELSE 0),
                                    !.notequal = @ + (IF e.ret = "notequal" THEN 1 ELSE 0),
                                    !.unknown = @ + (IF e.ret = "unknown" THEN 1 ELSE 0),
                                    !.nontrivial = @ + (IF e.ret # "unknown" THEN 1 ELSE 0),
                                    !.default_wrapper = @ + B(e.fn \in {"graph_default", "circuit_default"}),
                                    !.graph_answers = @ + B(e.fn \in {"graph", "graph_default", "graph_simplified"})]
-         /\ UNCHANGED <<ar, s1, s2>>
+         /\ UNCHANGED <<ar, s1, s2, gen>>
     [] e.k = "eqt" ->
          /\ viol' = IF e.res = "panic" THEN Append(viol, <<l, "NoPanic", e.fn>>)
+                    ELSE IF gen THEN (IF e.ret = FALSE THEN viol ELSE Append(viol, <<l, "DefTensorGen", e.fn>>))
                     ELSE IF DefTensor(e.ret, Arity, s1, s2) THEN viol ELSE Append(viol, <<l, "DefTensor", e.fn>>)
-         /\ stats' = [stats EXCEPT !.answers = @ + 1, !.nontrivial = @ + 1] /\ UNCHANGED <<ar, s1, s2, drift>>
+         /\ stats' = [stats EXCEPT !.answers = @ + 1, !.nontrivial = @ + 1] /\ UNCHANGED <<ar, s1, s2, gen, drift>>
     [] e.k = "eqdim" ->
          /\ viol' = IF e.res = "ok" /\ e.ret = Arity THEN viol ELSE Append(viol, <<l, "DimOK", e.fn>>)
-         /\ stats' = [stats EXCEPT !.answers = @ + 1, !.dim_calls = @ + 1] /\ UNCHANGED <<ar, s1, s2, drift>>
+         /\ stats' = [stats EXCEPT !.answers = @ + 1, !.dim_calls = @ + 1] /\ UNCHANGED <<ar, s1, s2, gen, drift>>
 Next == \/ /\ l <= NLines /\ Step(Rec[l]) /\ l' = l + 1
-        \/ /\ l = NLines + 1 /\ Report(l, viol, drift, stats) /\ l' = l + 1 /\ UNCHANGED <<ar, s1, s2, viol, drift, stats>>
+        \/ /\ l = NLines + 1 /\ Report(l, viol, drift, stats) /\ l' = l + 1 /\ UNCHANGED <<ar, s1, s2, gen, viol, drift, stats>>
 =============================================================================
